@@ -30,7 +30,9 @@ Record caseKM := mkKM {
   q_exact : bool;                       (* integer-valued input: the C06 clause applies *)
   q_contract : bool;                    (* input inside the usage contract: the C02 clauses apply *)
   q_impls : list impl_res;              (* one output per (pool, repetition) *)
-  q_prefix : list impl_res              (* compared cases: the output for max_iter = 0, 1, .. max_iter - 1 (pool 4) *)
+  q_prefix : list impl_res;             (* compared cases: the output for max_iter = 0, 1, .. max_iter - 1 (pool 4) *)
+  q_events : option (list (N * list N)) (* compared cases, when /repo has the k-means records: (0, assignments) (1, lbs ++ ubs bits)
+                                           after every assignment step, (2, influences bits) after every influence update *)
 }.
 
 Definition fl (b : N) : spec_float := f64_of_bits b.
@@ -40,6 +42,32 @@ Definition trace_of (R : reds F64) (c : caseKM) : res (list (list N)) :=
          (mkSettings F64 (fl (q_tol c)) (fl (q_delta c)) (q_max_iter c) (q_max_bal c)
                      (q_erode c) (q_hilbert c) (q_early c))
          (map (map fl) (q_pts c)) (map fl (q_ws c)) (q_part c).
+
+Definition events_of (R : reds F64) (c : caseKM) : res (list N * list (event F64)) :=
+  kmeans_events F64 R (option_map (map (map fl)) (q_rot c)) (q_dim c)
+         (mkSettings F64 (fl (q_tol c)) (fl (q_delta c)) (q_max_iter c) (q_max_bal c)
+                     (q_erode c) (q_hilbert c) (q_early c))
+         (map (map fl) (q_pts c)) (map fl (q_ws c)) (q_part c).
+
+Definition bits (l : list spec_float) : list N := map (fun x => f64_to_bits x) l.
+Fixpoint ev_flat (evs : list (event F64)) : list (N * list N) :=
+  match evs with
+  | [] => []
+  | EvAssign _ a l u :: t => (0%N, a) :: (1%N, bits l ++ bits u) :: ev_flat t
+  | EvInfl _ i :: t => (2%N, bits i) :: ev_flat t
+  end.
+Definition rec_eqb (a b : N * list N) : bool := (fst a =? fst b)%N && list_eqb N.eqb (snd a) (snd b).
+
+(* the recorded influences / bounds / assignments of the implementation, bit for bit *)
+Definition events_ok (c : caseKM) : bool :=
+  match q_events c with
+  | None => true
+  | Some recs =>
+    match events_of (reds_tree F64 T_seq P_id) c with
+    | Ok (_, evs) => list_eqb rec_eqb (ev_flat evs) recs
+    | _ => false
+    end
+  end.
 
 Definition check_valid (bound : N) (n : nat) (p : list N) : bool :=
   Nat.eqb (length p) n && forallb (fun x => (x <=? bound)%N) p.
@@ -91,7 +119,7 @@ Definition evalKM (c06 : bool) (c : caseKM) : verdict :=
        match tr with
        | Ok l => prefix_ok (q_part c) l 0 (q_prefix c)
        | _ => forallb (res_matches r) (q_prefix c)
-       end,
+       end && events_ok c,
        if flagged then 101%N else 102%N)
     else (true, 100%N) in
   {| corr_ok := corr; prop_ok := if c06 then prop06 else prop02; cls := cl |}.
